@@ -2,6 +2,7 @@ package pos
 
 import (
 	"fmt"
+	"sort"
 	"testing"
 	"time"
 
@@ -24,7 +25,8 @@ func c25Knobs() knobs {
 	return knobs{eras: eraBoth, minBlocks: 16, maxBlocks: 36, wStake: 2, wEdit: 2, wUnstake: 2, wUnjail: 9, wParam: 1, wNoise: 1, maxTxs: 3,
 		pEvidence: 25, pBurn: 25, pReward: 0, pVictimAbsent: 90, params: []string{"pos/StakeMinimum", "pos/MaxJailedBlocks"}, bigSlash: true, dispatch: true,
 		slashDT: []int{1, 1, 1, 25, 100}, slashDS: []int{5, 5, 50, 100}, stakeMins: []int64{1_000_000, 1_000_000, 1_000_000, 15_000_000_000},
-		burns: []int64{1, 5000, 1_000_000, 1_000_000, 3_000_000, 16_000_000, 40_000_000}, pUnjailNearDeadline: 60}
+		burns: []int64{1, 5000, 1_000_000, 1_000_000, 3_000_000, 16_000_000, 40_000_000}, pUnjailNearDeadline: 60,
+		windows: []int64{10, 10, 12}, minSignedPct: []int{60, 60, 60, 80, 90, 100}, pLatePlan: 50, pUnjailFresh: 60, pSmallDTFresh: 60}
 }
 
 type unjailAttempt struct {
@@ -38,6 +40,74 @@ type c25Monitor struct {
 	doomed   map[string]bool // slashed below the minimum: must stay queued (waiting) until it leaves the staked state
 	attempts []unjailAttempt
 	wantDiff bool
+	// The monitor's own memory of jail periods. deadline[a] is derived when a is jailed for downtime (block time of the
+	// jailing block + DowntimeJailDuration, both taken from the block, not from the signing info) and kept until a is
+	// seen unjailed or its record disappears: later unjails are judged against it, whatever the state says by then.
+	deadline map[string]time.Time
+	jailH    map[string]int64 // height of the block that started the remembered jail period
+	lateJail map[string]bool  // that block was one of the last two of a signing window, or the first of the next
+	edited   map[string]bool  // an edit-stake of the node was accepted during the remembered jail period
+}
+
+func newC25Monitor(c *harness.Case, d *director) *c25Monitor {
+	return &c25Monitor{c: c, d: d, doomed: map[string]bool{}, deadline: map[string]time.Time{}, jailH: map[string]int64{}, lateJail: map[string]bool{}, edited: map[string]bool{}}
+}
+
+func (m *c25Monitor) forget(a string) {
+	delete(m.deadline, a)
+	delete(m.jailH, a)
+	delete(m.lateJail, a)
+	delete(m.edited, a)
+}
+
+// observeJailing derives the jail periods that start (or restart) in the BeginBlock of st. Nothing but the vote handling
+// and duplicate-vote evidence can jail during BeginBlock, and only the former starts a jail period.
+func (m *c25Monitor) observeJailing(st *stepRec, where string) {
+	c := m.c
+	inEvidence := map[string]bool{}
+	for _, ev := range st.Blk.Evidence {
+		inEvidence[posview.Hex(ev.Validator.Address)] = true
+	}
+	window := st.Pre.Params.SignedBlocksWindow
+	want := st.Time.Add(st.Pre.Params.DowntimeJailDuration) // the parameters BeginBlock works with are those committed before the block
+	for _, r := range st.Pre.Validators {
+		a := posview.Hex(r.Address)
+		ab, ok := st.AfterBegin.ByAddr[a]
+		if !ok || !ab.Jailed || !st.Blk.Absent[a] {
+			continue
+		}
+		before, after := st.Pre.SignInfos[a], st.AfterBegin.SignInfos[a]
+		changed := !after.JailedUntil.Equal(before.JailedUntil)
+		downtime := false
+		switch {
+		case !r.Jailed && !inEvidence[a]:
+			downtime = true // jailed during BeginBlock, missed the vote, no evidence against it: downtime
+		case !r.Jailed:
+			downtime = changed // missed the vote AND named in evidence: either may have jailed it
+		default:
+			// already jailed but still in the commit info (2-block delay): a further downtime punishment restarts the period
+			downtime = changed && after.JailedUntil.Equal(want)
+		}
+		if !downtime {
+			continue
+		}
+		if !r.Jailed {
+			c.Label("downtime-jail")
+		}
+		// the jail period is counted in block time: JailedUntil = time of the jailing block + DowntimeJailDuration
+		if !after.JailedUntil.Equal(want) {
+			c.Violation("C25/jail/jailed-until-not-block-time-plus-duration", "%s: node %s was jailed for downtime in a block with time %s and jail duration %s, but JailedUntil is %s",
+				where, a[:8], st.Time, st.Pre.Params.DowntimeJailDuration, after.JailedUntil)
+		}
+		m.deadline[a] = want
+		m.jailH[a] = st.H
+		delete(m.edited, a)
+		m.lateJail[a] = false
+		if ph := st.H % window; ph >= window-2 || ph == 0 {
+			m.lateJail[a] = true
+			c.Label("downtime-jail-at-window-end")
+		}
+	}
 }
 
 func authorized(t txRec, views ...*posview.View) bool {
@@ -171,6 +241,7 @@ func (m *c25Monitor) observe(i int, st *stepRec, e *events) {
 		}
 	}
 	// 4. unjail
+	m.observeJailing(st, where)
 	perNode := map[string]int{}
 	paramTx := false
 	for _, t := range st.Txs {
@@ -193,10 +264,23 @@ func (m *c25Monitor) observe(i int, st *stepRec, e *events) {
 		post, inPost := st.Post.ByAddr[a]
 		si, hasInfo := st.Mid.SignInfos[a]
 		auth := authorized(t, st.Pre, st.Mid, st.Post)
-		if inMid && mid.Jailed && hasInfo && auth {
-			m.attempts = append(m.attempts, unjailAttempt{step: i, jailedUntil: si.JailedUntil})
-			if st.Time.Equal(si.JailedUntil) {
+		// the end of the jail period: the deadline remembered from the jailing block; the stored one is only consulted
+		// in addition (it must not be later either) or when the monitor did not see the node jailed for downtime
+		dl, hasDL := m.deadline[a]
+		storedEarly := hasInfo && st.Time.Before(si.JailedUntil)
+		early := storedEarly || (hasDL && st.Time.Before(dl))
+		until := si.JailedUntil
+		if hasDL && dl.After(until) {
+			until = dl
+		}
+		if inMid && mid.Jailed && (hasInfo || hasDL) && auth {
+			m.attempts = append(m.attempts, unjailAttempt{step: i, jailedUntil: until})
+			if st.Time.Equal(until) {
 				c.Label("unjail-at-exact-deadline")
+			}
+			if hasDL && m.lateJail[a] && st.H-m.jailH[a] <= 3 && st.Time.Before(dl) {
+				c.Label("early-unjail-attempt-within-3-blocks-of-window-end-jailing")
+				c.NonTrivial()
 			}
 		}
 		if t.Code == 0 {
@@ -214,16 +298,24 @@ func (m *c25Monitor) observe(i int, st *stepRec, e *events) {
 			if best.LT(minLo) {
 				c.Violation("C25/unjail/accepted-below-minimum-stake", "%s: unjail of %s returned code 0 with stake %s below the minimum %s", where, a[:8], best, minLo)
 			}
-			if hasInfo && st.Time.Before(si.JailedUntil) {
-				c.Violation("C25/unjail/accepted-before-jail-period-ended", "%s: unjail of %s returned code 0 at block time %s, before JailedUntil %s", where, a[:8], st.Time, si.JailedUntil)
+			if early {
+				sig := "C25/unjail/accepted-before-jail-period-ended"
+				if !storedEarly && m.edited[a] {
+					// narrower signature: the stored deadline is gone after an accepted edit-stake of the jailed node
+					sig = "C25/unjail/accepted-before-jail-period-ended/after-edit-stake-while-jailed"
+				}
+				if c.Violation(sig, "%s: unjail of %s returned code 0 at block time %s, before the end of its jail period %s (jailed for downtime at height %d; JailedUntil stored now: %s, signing info present=%v, edit-stake accepted while jailed=%v)",
+					where, a[:8], st.Time, until, m.jailH[a], si.JailedUntil, hasInfo, m.edited[a]) {
+					early = false // known finding: continue past this one comparison
+				}
 			}
-			if auth && !best.LT(minLo) && !(hasInfo && st.Time.Before(si.JailedUntil)) {
+			if auth && !best.LT(minLo) && !early {
 				okRequest[a] = true
 			}
 			continue
 		}
 		// rejected
-		if inMid && mid.Jailed && hasInfo && st.Time.Before(si.JailedUntil) && auth {
+		if inMid && mid.Jailed && early && auth {
 			c.Label("unjail-rejected-before-deadline")
 		}
 		if inMid && mid.Jailed && !auth {
@@ -234,7 +326,7 @@ func (m *c25Monitor) observe(i int, st *stepRec, e *events) {
 		}
 		// the time clause is an "if and only if": with every other condition met, block time >= JailedUntil must suffice,
 		// whatever the local clock says
-		if inMid && mid.Jailed && hasInfo && authorized(t, st.Mid) && !mid.StakedTokens.LT(minHi) && !st.Time.Before(si.JailedUntil) && perNode[a] == 1 && !paramTx &&
+		if inMid && mid.Jailed && hasInfo && authorized(t, st.Mid) && !mid.StakedTokens.LT(minHi) && !early && perNode[a] == 1 && !paramTx &&
 			t.Space == string(nodesTypes.DefaultCodespace) { // rejections by the ante handler (e.g. the signer cannot pay the fee) are not the unjail rules
 
 			sig := "C25/unjail/rejected-although-all-conditions-hold"
@@ -242,7 +334,17 @@ func (m *c25Monitor) observe(i int, st *stepRec, e *events) {
 				sig = "C25/unjail/outcome-depends-on-wall-clock"
 			}
 			c.Violation(sig, "%s: unjail of %s by an authorized signer with stake %s >= minimum %s at block time %s >= JailedUntil %s was rejected with %s/%d (genesis year %d)",
-				where, a[:8], mid.StakedTokens, minHi, st.Time, si.JailedUntil, t.Space, t.Code, m.d.w.Spec.GenesisTime.Year())
+				where, a[:8], mid.StakedTokens, minHi, st.Time, until, t.Space, t.Code, m.d.w.Spec.GenesisTime.Year())
+		}
+	}
+	// accepted edit-stakes of nodes whose jail period the monitor remembers (recorded after the unjails of this block were
+	// judged: within a block an edit-stake before an unjail leaves no signing info, and that unjail is refused)
+	for _, t := range st.Txs {
+		if (t.Kind == "edit" || t.Kind == "stake") && t.Code == 0 && t.Target != nil { // a MsgStake for an existing staked record is an edit-stake
+			if _, ok := m.deadline[posview.Hex(t.Target)]; ok {
+				m.edited[posview.Hex(t.Target)] = true
+				c.Label("edit-stake-accepted-during-jail-period")
+			}
 		}
 	}
 	for a := range e.unjailed {
@@ -251,18 +353,21 @@ func (m *c25Monitor) observe(i int, st *stepRec, e *events) {
 				where, a[:8], st.Desc)
 		}
 	}
-	for a := range e.downtimeJail {
-		c.Label("downtime-jail")
-		// the jail period is counted in block time: JailedUntil = time of the jailing block + DowntimeJailDuration
-		before, after := st.Pre.SignInfos[a], st.AfterBegin.SignInfos[a]
-		if !after.JailedUntil.Equal(before.JailedUntil) {
-			want := st.Time.Add(st.AfterBegin.Params.DowntimeJailDuration)
-			if !after.JailedUntil.Equal(want) {
-				c.Violation("C25/jail/jailed-until-not-block-time-plus-duration", "%s: node %s was jailed for downtime in a block with time %s and jail duration %s, but JailedUntil is %s",
-					where, a[:8], st.Time, st.AfterBegin.Params.DowntimeJailDuration, after.JailedUntil)
-			}
+	// jail periods end with the unjail (or with the record)
+	for _, a := range sortedTimes(m.deadline) {
+		if r, ok := st.Post.ByAddr[a]; !ok || !r.Jailed {
+			m.forget(a)
 		}
 	}
+}
+
+func sortedTimes(m map[string]time.Time) []string {
+	ks := make([]string, 0, len(m))
+	for k := range m {
+		ks = append(ks, k)
+	}
+	sort.Strings(ks)
+	return ks
 }
 
 // finish labels the attempts that were within one block of the deadline.
@@ -343,20 +448,26 @@ func updList(us []abci.ValidatorUpdate) []string {
 
 func TestC25(t *testing.T) {
 	harness.Check(t, "C25",
-		"real app in the chain simulator, 16-36 generated blocks per history, genesis time drawn from year 2001 or 2101 (both sides of any wall clock); 1-2 victim validators miss 90% of their votes "+
-			"(downtime slash + jail, window 10 / min signed 6), duplicate-vote evidence with generated height/age/power, BurnForChallenge inside blocks as the proof handler calls it, slash fractions 1-100%, "+
-			"StakeMinimum 1e6 or 15e9 (also raised by gov), unjail txs by operator / output / stranger aimed at JailedUntil -1s/exact/+1s, edit-stake after slash, begin-unstake, sessions dispatched after every commit; "+
+		"real app in the chain simulator, 16-36 generated blocks per history, genesis time drawn from year 2001 or 2101 (both sides of any wall clock); signing window 10 or 12 with min signed 60/80/90/100% "+
+			"(1 to 6 missed votes within a window jail); 1-2 victim validators either miss 90% of their votes or follow a plan that crosses the downtime threshold exactly in one of the last two blocks of a signing window "+
+			"(or its first block), so that the jailed node is still in the commit info of the next window's first block (2-block update delay); after a jailing the next blocks take 0-5 s steps with 60% and carry "+
+			"authorized unjail txs (60% per block for 3 blocks, then aimed at the deadline -1s/exact/+1s); duplicate-vote evidence with generated height/age/power, BurnForChallenge inside blocks as the proof handler calls it, "+
+			"slash fractions 1-100%, StakeMinimum 1e6 or 15e9 (also raised by gov), unjail txs by operator / output / stranger, edit-stake (also of jailed nodes), begin-unstake, sessions dispatched after every commit; "+
 			"trace monitor over raw snapshots taken before the block, after BeginBlock, after every burn and after commit: per slashing phase Σ stake removed == supply decrease == pool decrease, "+
 			"0 <= stake' <= stake, only offenders lose stake; slashed below minimum ⇒ jailed and in the waiting set (and stays queued while staked); jailed ⇒ not in the consensus set built from the updates and "+
-			"in no session returned by HandleDispatch; unjailed ⇒ accepted unjail by operator/output with stake >= minimum at block time >= JailedUntil, and conversely such an unjail must be accepted; "+
+			"in no session returned by HandleDispatch; the monitor REMEMBERS each jail period when it starts (node jailed in BeginBlock after a missed vote: deadline = time of that block + DowntimeJailDuration, "+
+			"which the stored JailedUntil must equal at that moment) and judges every later unjail against the remembered deadline as well as the stored one: unjailed ⇒ accepted unjail by operator/output with "+
+			"stake >= minimum at block time >= deadline, and conversely such an unjail must be accepted; "+
 			"the whole history replayed with all times shifted by ±100 years must give the same tx codes, validator updates, supply and pool. "+
-			"non-trivial = history with a slash that crosses the minimum stake, or an authorized unjail attempt in the last block before / first block at-or-after JailedUntil",
+			"non-trivial = history with a slash that crosses the minimum stake, or an authorized unjail attempt in the last block before / first block at-or-after the deadline, or an authorized unjail attempt "+
+			"before the deadline within 3 blocks of a jailing at a signing-window end",
 		map[string]float64{"downtime-jail": 0.6, "slash-crosses-minimum": 0.4, "unjail-accepted": 0.3, "unjail-rejected-before-deadline": 0.25, "unjail-in-first-block-at-or-after-deadline": 0.3,
 			"unjail-in-last-block-before-deadline": 0.2, "unjail-at-exact-deadline": 0.1, "unjail-by-stranger-rejected": 0.1, "unjail-below-minimum-rejected": 0.25, "era-2101": 0.3, "era-2001": 0.3,
-			"shifted-replay": 0.4, "session-generated-while-jailed-node-on-chain": 0.5, "evidence-slash": 0.4, "challenge-burn": 0.4, "slash-capped-at-whole-stake": 0.2},
+			"shifted-replay": 0.4, "session-generated-while-jailed-node-on-chain": 0.5, "evidence-slash": 0.4, "challenge-burn": 0.4, "slash-capped-at-whole-stake": 0.2,
+			"downtime-jail-at-window-end": 0.3, "early-unjail-attempt-within-3-blocks-of-window-end-jailing": 0.25, "edit-stake-accepted-during-jail-period": 0.05},
 		func(rt *rapid.T, c *harness.Case) {
 			d := newDirector(rt, c, c25Knobs())
-			m := &c25Monitor{c: c, d: d, doomed: map[string]bool{}}
+			m := newC25Monitor(c, d)
 			c.Label(fmt.Sprintf("era-%d", d.w.Spec.GenesisTime.Year()))
 			nb := rapid.IntRange(d.k.minBlocks, d.k.maxBlocks).Draw(rt, "blocks")
 			sample := rapid.IntRange(0, 3).Draw(rt, "replayAnyway") == 0
